@@ -64,6 +64,13 @@ func isTimeChan(t types.Type) bool {
 }
 
 func runC18(p *Prog, r *Report) {
+	{
+		q := NewQ(p, r)
+		R := "C18.9/in-progress-flag-cleared"
+		r.Describe(R, "the 'a receive is in progress' flag of REP and REQ contexts is cleared on every return of RecvMsg, including the timeout and closed returns: otherwise one expired deadline makes every later Recv fail at once")
+		q.TokenReleased(R, "protocol/rep.(*context).RecvMsg/recvWait", q.Fn(R, "protocol/rep", "context", "RecvMsg"), "recv.recvWait")
+		q.TokenReleased(R, "protocol/req.(*context).RecvMsg/receiveWait", q.Fn(R, "protocol/req", "context", "RecvMsg"), "recv.receiveWait")
+	}
 	R := "C18.1/deadline-select"
 	r.Describe(R, "timer case of each API select: sources ⊆ {nil, closed channel (send side, best-effort), time.After(matching option field)}; time.After guarded by field > 0, armed once per call; timer arm returns the matching timeout error")
 	nsel := 0
